@@ -376,6 +376,28 @@ mod known_f18_composite_one_pass {
     }
 }
 
+/// KNOWN FINDING 19, second witness (independent of how the leaf container emplacers order their room check): the trailing field is a
+/// nested unsized enum whose own per-variant size gate refuses the new content without touching its bytes, after the outer tag was switched.
+/// Asserts that the defect is STILL PRESENT.
+#[cfg(test)]
+mod known_f18b_composite_nested_enum {
+    use super::common::*;
+    #[flat(sized = false)]
+    enum Inner { A, B(FlatVec<u8, u8>), C(u32, FlatVec<u8, u8>) }
+    #[flat(sized = false)]
+    enum Outer { X(FlatVec<u8, u8>), Y(Inner) }
+    #[test]
+    fn failed_assign_with_nested_enum_tail_can_leave_invalid_value() {
+        // 4 (outer tag + padding) + 8 payload bytes: Inner::C needs 4 (tag) + 4 (u32) + 1 = 9 > 8, Inner's MIN_SIZE (4) fits.
+        let mut b = AlignedBytes::new(12, 4);
+        b.iter_mut().for_each(|x| *x = 0);
+        let v = Outer::new_in_place(&mut b, OuterInitX(flat_vec![0xffu8; 7])).unwrap();
+        let e = v.assign_in_place(OuterInitY(InnerInitC(1, flat_vec![9u8; 1]))).err().unwrap();
+        assert_eq!(e.kind, ErrorKind::InsufficientSize);
+        assert!(Outer::validate(&b).is_err(), "defect no longer reproduces");
+    }
+}
+
 /// Finding 20 (C02, C05, C11): as_bytes() of a FlatVec whose element size is not a multiple of the vector's alignment
 /// is shorter than the value (not rounded to ALIGN): the value's own bytes do not re-map to the same capacity / do not validate.
 #[cfg(test)]
